@@ -47,13 +47,15 @@ InBudget(s) == WalkBits(s) <= Budget
 \* the machine below walks through the members of the family whose exact points stay below ModelBudget bits (190 bits for m = 1) (the small instance);
 \* all of them are emitted for the harness and judged with the same closed forms by Trace_C13
 ModelBudget == 150
-StepSet == { s \in SmallAngle \cup Pyth \cup Wide \cup NearRight \cup Exact : InBudget(s) }
+\* a few deeper walks beyond the budget: fractional t inside and next to the linear-fallback zone of double
+Deep == { <<1, 2^27, 2>>, <<1, 2^28, 3>>, <<1, 2^30, 2>> }
+StepSet == { s \in SmallAngle \cup Pyth \cup Wide \cup NearRight \cup Exact : InBudget(s) } \cup Deep
 MkWalk(xi, ai, s) == <<XS[xi][1], XS[xi][2], XS[xi][3], XS[xi][4], XS[xi][5], AXS[ai][1], AXS[ai][2], AXS[ai][3], AXS[ai][4], s[1], s[2], s[3]>>
 \* the whole walk must stay on the oriented side: sin(j psi) > 0 for j = 1..m (m psi < pi), or psi = 0
 Oriented(ww) == WP(ww) = 0 \/ \A jj \in 1..WM(ww) : ZSign(ArcAng(ww, jj).s) > 0
-\* quick: one (x, axis) per step, rotating through the lists; thorough: four
+\* quick: one (x, axis) per step, rotating through the lists; thorough: three
 Mix(s, r) == (s[1] % 97) * 7 + (s[2] % 89) * 5 + s[3] * 3 + r * 11
-Walks == { ww \in { MkWalk((Mix(s, r) % Len(XS)) + 1, ((Mix(s, r) \div 3) % Len(AXS)) + 1, s) : s \in StepSet, r \in (IF Thorough THEN 0..3 ELSE 0..0) } : Oriented(ww) }
+Walks == { ww \in { MkWalk((Mix(s, r) % Len(XS)) + 1, ((Mix(s, r) \div 3) % Len(AXS)) + 1, s) : s \in StepSet, r \in (IF Thorough THEN 0..2 ELSE 0..0) } : Oriented(ww) }
 
 \* ---------------------------------------------------------------- the machine
 ModelWalks == { ww \in Walks : WalkBits(<<WP(ww), WQ(ww), WM(ww)>>) <= (IF WM(ww) = 1 THEN 190 ELSE ModelBudget) }
